@@ -48,6 +48,8 @@ def run(prog, chk):
     from props import geomalg
     n = geomalg.check_sites(prog, chk, "C14")
     chk.floor("A17.site-algebra", n, 36, "built-in function compared with the reference algebra")
+    from props import strops
+    strops.check_for(prog, chk, "C14")  # A14.str-ops: how this property's strings are cut up is a reviewed, frozen inventory
 
 
 def _fn(prog, name):
